@@ -137,6 +137,34 @@ C17Values ==
     \cup {[kind |-> "map", pairs |-> <<<<"Name", "1">>, <<"name", "2">>, <<"NAME", "3">>>>],
           [kind |-> "map", pairs |-> <<<<"id", "a">>, <<"x", "y">>, <<"ID", "b">>>>]}
 
+\* the dynamic endpoints (Endpoints.tla): the dispatch rule swept over methods x paths and their near misses x content types x
+\* query yes/no, and the answers over field sets (ASCII texts here: the hard characters are the maps above)
+NoQuery == [p |-> FALSE, pairs |-> <<>>]
+QueryOf(pairs) == [p |-> TRUE, pairs |-> pairs]
+OnePart == <<[named |-> TRUE, name |-> "f", body |-> "v"]>>
+Endpoint(m, pc, pv, query, ct, form, parts, alloc) ==
+    [kind |-> "endpoint", method |-> m, pcls |-> pc, pvar |-> pv, query |-> query, ctype |-> ct, form |-> form, parts |-> parts, alloc |-> alloc]
+PairPool == <<<<"name", "a.bin">>, <<"lastModified", "5">>, <<"size", "77">>, <<"extra", "two words">>>>
+SubSeqOf(seq, S) == LET F[i \in 0..Len(seq)] == IF i = 0 THEN <<>> ELSE IF i \in S THEN Append(F[i - 1], seq[i]) ELSE F[i - 1] IN F[Len(seq)]
+EchoPairs == {<<<<"a", "1">>>>, <<<<"b", "two words">>, <<"a", "1">>>>, <<<<"A", "x">>, <<"a", "y">>, <<"aa", "x-y_z.~">>>>,
+              <<<<"k1", "v">>, <<"k2", "v">>, <<"k3", "v">>, <<"k4", "v">>>>}
+EPart(nm, b) == [named |-> TRUE, name |-> nm, body |-> b]
+EUnnamed(b) == [named |-> FALSE, name |-> "", body |-> b]
+EchoParts == {<<EPart("f", "v")>>, <<EPart("f", "")>>, <<EPart("b", "two words"), EPart("a", "1")>>, <<EPart("a", "1"), EPart("a", "2"), EPart("c", "x - y")>>,
+              <<EUnnamed("v")>>, <<EPart("a", "1"), EUnnamed("v")>>, <<EPart("p1", "1"), EPart("p2", "2"), EPart("p3", "3"), EPart("p4", "4")>>}
+C17Endpoints ==
+    {Endpoint(m, pc, pv, qy, ct, <<<<"a", "1">>>>, OnePart, 10000) :
+        m \in {"GET", "POST", "HEAD", "PUT"}, pc \in {"upload", "form_url", "form_get", "form_multi"},
+        pv \in {"exact", "trailing_slash", "upper", "extended"}, qy \in {NoQuery, QueryOf(<<<<"k", "v">>>>)},
+        ct \in {"none", "form_exact", "form_upper", "form_param", "multi", "multi_upper", "multi_two_blanks", "multi_no_boundary", "other"}}
+    \* the announcement: every subset of the three required parameters (+ one more), four buffer sizes around the 4000 offset
+    \cup {Endpoint("POST", "upload", "exact", QueryOf(SubSeqOf(PairPool, S)), "none", <<>>, <<>>, al) :
+            S \in SUBSET (1..4) \ {{}}, al \in {10000, 4001, 4000, 3000}}
+    \* the echoes over 1..4 fields in several orders
+    \cup {Endpoint("GET", "form_get", "exact", QueryOf(ps), "none", <<>>, <<>>, 10000) : ps \in EchoPairs}
+    \cup {Endpoint("POST", "form_url", "exact", NoQuery, "form_exact", ps, <<>>, 10000) : ps \in EchoPairs}
+    \cup {Endpoint("POST", "form_multi", "exact", qy, "multi", <<>>, parts, 10000) : qy \in {NoQuery, QueryOf(<<<<"k", "v">>>>)}, parts \in EchoParts}
+
 \* ---------------------------------------------------------------- C19
 \* the supported model: an object with one optional field of every kind; numbers travel as decimal / float lexemes
 \* an optional field is [p |-> present, v |-> value]; an absent field carries a neutral value of its own type
@@ -223,7 +251,7 @@ Cases == CASE Mode = "c19" -> C19Objects \cup C19Arrays \cup C19Odd
            [] Mode = "c14" -> C14Values \cup C14Lines
            [] Mode = "c15" -> C15Values \cup {AllStatuses} \cup C15Corrupt \cup C15StatusLines \cup C15Structs
            [] Mode = "c16" -> C16Values \cup C16Corrupt \cup C16Extract \cup C16Structs \cup C16Long \cup C16Headers
-           [] Mode = "c17" -> C17Values
+           [] Mode = "c17" -> C17Values \cup C17Endpoints
 Init == case \in Cases
 Next == UNCHANGED case
 Spec == Init /\ [][Next]_case
